@@ -8,7 +8,7 @@ An output coercer closure denotes an `OBeh`; `Conf(b, v)` says that the complete
 """
 import z3
 from pyvc.values import *
-from pyvc.values import LEMMA_HOOKS, UNFOLD
+from pyvc.values import LEMMA_HOOKS, UNFOLD, ForallList, ListImplication
 from pyvc.symexec import attr0, fun_id
 from pyvc.classtable import table
 from specs.inputs import cls_is, is_non_null_type, is_list_t, is_wrapping_t, wrapped_of, bound
@@ -62,11 +62,9 @@ z3.RecAddDefinition(denote, [_c], _denote_body(_c))
 UNFOLD['denote_out'] = _denote_body
 
 Conf = z3.RecFunction('Conf', OBeh, V, BoolS)
-AllConf = z3.RecFunction('AllConfUpTo', OBeh, VL, IntS, BoolS)
+AllConf = ForallList('conf', lambda x, b: Conf(b, x), (OBeh,))       # every element of a list conforms to b
 _b = z3.Const('ob_', OBeh)
 _v = z3.Const('ov_', V)
-_items = z3.Const('oitems_', VL)
-_k = z3.Int('ok_')
 
 
 def _conf_body(b, v):
@@ -74,16 +72,14 @@ def _conf_body(b, v):
            z3.If(OBeh.is_ODir(b), Conf(OBeh.od_b(b), v),
            z3.If(OBeh.is_OOpaque(b), True,
            z3.If(v == V.None_, True,
-           z3.If(OBeh.is_OList(b), z3.And(V.is_List(v), AllConf(OBeh.ol_b(b), V.items(v), length(V.items(v)))),
+           z3.If(OBeh.is_OList(b), z3.And(V.is_List(v), AllConf(V.items(v), OBeh.ol_b(b))),
            z3.If(OBeh.is_OScalar(b), z3.And(Produced(OBeh.os_t(b), v), v != V.Undef),
            z3.If(OBeh.is_OEnum(b), z3.And(Produced(OBeh.oe_t(b), v), v != V.Undef),
            z3.If(OBeh.is_OObj(b), ObjConf(OBeh.oo_t(b), v), AbsConf(OBeh.oa_t(b), v)))))))))
 
 
 z3.RecAddDefinition(Conf, [_b, _v], _conf_body(_b, _v))
-z3.RecAddDefinition(AllConf, [_b, _items, _k], z3.If(_k <= 0, True, z3.And(AllConf(_b, _items, _k - 1), Conf(_b, nth(_items, _k - 1)))))
 UNFOLD['Conf'] = _conf_body
-UNFOLD['AllConfUpTo'] = lambda b, items, k: z3.If(k <= 0, True, z3.And(AllConf(b, items, k - 1), Conf(b, nth(items, k - 1))))
 
 
 def nullable(b):
@@ -148,13 +144,50 @@ UNFOLD['ORebR'] = _orebr
 UNFOLD['OWsOk'] = _owsok
 
 
-# ---- exceptions travelling through completion: a MultipleException always carries at least one exception
+# ---- exceptions travelling through completion: a MultipleException always carries at least one exception, and only exceptions
+def carried_exc(x):
+    return cls_is(x, 'Exception')
+
+
+AllCarried = ForallList('carried_exc', carried_exc)
+
+
 def exc_wf(e):
     ex = attr0(e, 'exceptions')
     return z3.And(cls_is(e, 'Exception'),
                   z3.Implies(cls_is(e, 'MultipleException'), z3.And(V.is_List(ex), z3.Not(VL.is_nil(V.items(ex))))))
 
 
+def exc_full_wf(e):
+    return z3.And(exc_wf(e), z3.Implies(cls_is(e, 'MultipleException'), AllCarried(V.items(attr0(e, 'exceptions')))))
+
+
 def carried(e):
     """number of errors an exception stands for (6.4.4: one per failing position; a MultipleException carries several)"""
     return z3.If(cls_is(e, 'MultipleException'), length(V.items(attr0(e, 'exceptions'))), 1)
+
+
+# ---- arbitrary resolver results (recursive well-formedness): anything except the internal lookup marker; IEEE floats;
+# exceptions carried as values are well-formed exceptions
+def _exc_ok(e):
+    return z3.Implies(cls_is(e, 'Exception'), exc_full_wf(e))
+
+
+ResWf = z3.RecFunction('ResWf', V, BoolS)
+ResListWf = z3.RecFunction('ResListWf', VL, BoolS)
+_rv = z3.Const('rv_', V)
+_rl = z3.Const('rl_', VL)
+z3.RecAddDefinition(ResWf, [_rv], z3.And(_rv != V.Missing, z3.Implies(V.is_Float(_rv), wf_float(_rv)), _exc_ok(_rv),
+                                         z3.Implies(V.is_List(_rv), ResListWf(V.items(_rv)))))
+z3.RecAddDefinition(ResListWf, [_rl], z3.If(VL.is_nil(_rl), True, z3.And(ResWf(VL.hd(_rl)), ResListWf(VL.tl(_rl)))))
+UNFOLD['ResWf'] = lambda v: z3.And(v != V.Missing, z3.Implies(V.is_Float(v), wf_float(v)), _exc_ok(v), z3.Implies(V.is_List(v), ResListWf(V.items(v))))
+
+
+def _res_lemmas(e, n):
+    if n == 'nth':
+        l, k = e.arg(0), e.arg(1)
+        return [z3.Implies(z3.And(ResListWf(l), k >= 0, k < length(l)), ResWf(e))]
+    return []
+
+
+LEMMA_HOOKS.append(_res_lemmas)
